@@ -691,25 +691,25 @@ func runFrames(c *Ctx, p *Prog, R *BusRoles, want map[string]string) {
 		}
 	}
 	for pos := range r.spawnSites {
-		dis("C06.R1", "PublishContext/async-go@"+siteKey(p, pos), "exactly one Add(1) on the bus wait group in the publisher between the previous spawn and this go statement, none inside the goroutine")
-		dis("C06.R2", "PublishContext/async-goroutine@"+siteKey(p, pos), "Done exactly once on every exit of the goroutine body (return, context skip, panic)")
+		dis("C06.R1", "PublishContext/async-go#"+siteOrd(r.spawnSites, pos), "exactly one Add(1) on the bus wait group in the publisher between the previous spawn and this go statement, none inside the goroutine")
+		dis("C06.R2", "PublishContext/async-goroutine#"+siteOrd(r.spawnSites, pos), "Done exactly once on every exit of the goroutine body (return, context skip, panic)")
 	}
 	for pos := range r.invSites {
-		dis("C07.R1", "dispatch-fn/invocation@"+siteKey(p, pos), "if the sequential flag is set the registration's own mutex is held at this invocation")
-		dis("C05.R3", "dispatch-fn/invocation@"+siteKey(p, pos), "on this invocation's panic edge the sequential lock is released and wait-group counts are balanced")
-		dis("C20.R1", "dispatch-fn/invocation@"+siteKey(p, pos), "OnHandlerStart once before, OnHandlerComplete once on every exit incl. recovered panic")
+		dis("C07.R1", "dispatch-fn/invocation#"+siteOrd(r.invSites, pos), "if the sequential flag is set the registration's own mutex is held at this invocation")
+		dis("C05.R3", "dispatch-fn/invocation#"+siteOrd(r.invSites, pos), "on this invocation's panic edge the sequential lock is released and wait-group counts are balanced")
+		dis("C20.R1", "dispatch-fn/invocation#"+siteOrd(r.invSites, pos), "OnHandlerStart once before, OnHandlerComplete once on every exit incl. recovered panic")
 	}
 	for pos := range r.phSites {
-		dis("C05.R2", "dispatch-fn/panic-handler-call@"+siteKey(p, pos), "called exactly once iff a panic was recovered and the handler is set, with (event, handlerType, recover())")
+		dis("C05.R2", "dispatch-fn/panic-handler-call#"+siteOrd(r.phSites, pos), "called exactly once iff a panic was recovered and the handler is set, with (event, handlerType, recover())")
 	}
 	for pos := range r.hookSites {
-		dis("C08.R3", "PublishContext/hook-call@"+siteKey(p, pos), "exactly once per publish on every path, in its phase, with (TypeOf(event), event)")
+		dis("C08.R3", "PublishContext/hook-call#"+siteOrd(r.hookSites, pos), "exactly once per publish on every path, in its phase, with (TypeOf(event), event)")
 	}
 	for pos := range r.persistSites {
-		dis("C09.R1", "PublishContext/persist-call@"+siteKey(p, pos), "static call of the persist function exactly once on every path, ahead of the snapshot, with the publish ctx and event")
+		dis("C09.R1", "PublishContext/persist-call#"+siteOrd(r.persistSites, pos), "static call of the persist function exactly once on every path, ahead of the snapshot, with the publish ctx and event")
 	}
 	for pos := range r.obsSites {
-		dis("C20.R1", "obs-call@"+siteKey(p, pos), "paired on every path")
+		dis("C20.R1", "obs-call#"+siteOrd(r.obsSites, pos), "paired on every path")
 	}
 	c.Stats["spawn_sites"] = len(r.spawnSites)
 	c.Stats["wg_add_sites"] = len(r.addSites)
